@@ -451,7 +451,12 @@ func writeComputedFieldExpression(w *formatting.IndentedWriter, expression dsl.E
 				case dsl.BinaryOpMul:
 					w.WriteString("*")
 				case dsl.BinaryOpDiv:
-					w.WriteString("//")
+					if dsl.IsIntegralType(t.ResolvedType) {
+						w.WriteString("//")
+					} else {
+						// true division for floating-point and complex results ("//" would floor the quotient)
+						w.WriteString("/")
+					}
 				case dsl.BinaryOpPow:
 					w.WriteString("**")
 				default:
